@@ -287,15 +287,16 @@ def post_path_curv(call):
             k, t = p.T2t(T)
         except Exception:
             return False
-    if t < 1e-6 or t > 1 - 1e-6:
+    if t < 2e-5 or t > 1 - 2e-5:
+        # (the library treats T within np.isclose of a joint - 1e-5 in t - as the joint itself)
         # at a joint the path's curvature is that of the owning segment if the two unit tangents agree (the docstring
         # promises inf only where the path is not differentiable); speeds may differ - curvature does not depend on
         # the parameterisation.  Judged for Bezier/Line neighbours whose reference tangents agree to 1e-9.
-        j = k - 1 if t < 1e-6 else k + 1
+        j = k - 1 if t < 2e-5 else k + 1
         if not (0 <= j < len(p)) or type(p[k]).__name__ == 'Arc' or type(p[j]).__name__ == 'Arc':
             ctx.skip('Path.curvature at a joint (may legitimately be inf)')
             return False
-        a, b = (p[j], p[k]) if t < 1e-6 else (p[k], p[j])
+        a, b = (p[j], p[k]) if t < 2e-5 else (p[k], p[j])
         if a.end != b.start:
             ctx.skip('Path.curvature at a joint (may legitimately be inf)')
             return False
